@@ -52,6 +52,6 @@ def run(ctx):
     ctx.floor("D1a", 5)
     ctx.floor("D1b", 1)
     ctx.floor("D2", 1)
-    ctx.floor("D3", 6)
+    ctx.floor("D3", 4)
     ctx.floor("D4", 6)
-    ctx.floor("D5", 20)
+    ctx.floor("D5", 14)
